@@ -35,18 +35,22 @@ HeaderGroup(v) == IF v = "daemon-sender" THEN {"req.count", "req.blk", "req.s2",
 PairClasses == {"zero", "minus-one", "plus-one", "huge"}
 NoPair == "none"
 
-VARIABLES victim, field, class, field2, class2, pc, alive, nextOK
-vars == <<victim, field, class, field2, class2, pc, alive, nextOK>>
+VARIABLES victim, field, class, field2, class2, display, pc, alive, nextOK
+vars == <<victim, field, class, field2, class2, display, pc, alive, nextOK>>
+(* what the victim was asked to DISPLAY must not matter either: "progress" = the client runs with --progress, *)
+(* the daemon gets a --progress argument line (its computations on peer-declared sizes then run)            *)
+Displays == {"quiet", "progress"}
 Init == /\ victim \in Victims /\ field \in FieldsOf(victim) /\ class \in Classes
+        /\ display \in Displays /\ (display = "progress" => (field2 = NoPair /\ class \in {"zero", "minus-one", "plus-one", "huge", "garbage"}))
         /\ \/ field2 = NoPair /\ class2 = NoPair
            \/ /\ field \in HeaderGroup(victim) /\ class \in PairClasses
               /\ field2 \in HeaderGroup(victim) \ {field} /\ class2 \in PairClasses
         /\ pc = "session" /\ alive = TRUE /\ nextOK = "untested"
 (* the damaged field arrives: the session ends - with an error, or (if the damage happens to be harmless) normally *)
-EndSession == /\ pc = "session" /\ pc' \in {"ended-error", "ended-ok"} /\ UNCHANGED <<victim, field, class, field2, class2, alive, nextOK>>
+EndSession == /\ pc = "session" /\ pc' \in {"ended-error", "ended-ok"} /\ UNCHANGED <<victim, field, class, field2, class2, display, alive, nextOK>>
 (* a daemon then serves the canonical request of another client *)
 NextRequest == /\ pc \in {"ended-error", "ended-ok"} /\ victim # "client" /\ nextOK = "untested"
-               /\ nextOK' = "ok" /\ UNCHANGED <<victim, field, class, field2, class2, pc, alive>>
+               /\ nextOK' = "ok" /\ UNCHANGED <<victim, field, class, field2, class2, display, pc, alive>>
 Done == /\ (nextOK # "untested" \/ (victim = "client" /\ pc # "session")) /\ UNCHANGED vars
 Next == EndSession \/ NextRequest \/ Done
 Spec == Init /\ [][Next]_vars /\ WF_vars(Next)
@@ -56,7 +60,7 @@ SessionEnds == <>(pc # "session")
 DaemonKeepsServing == <>(victim = "client" \/ nextOK = "ok")
 
 OutFile == IOEnv.VERIF_OUT
-Emit == (pc = "session") => CSVWrite("%1$s", <<ToJson([victim |-> victim, field |-> field, class |-> class, field2 |-> (IF field2 = NoPair THEN "" ELSE field2), class2 |-> (IF class2 = NoPair THEN "" ELSE class2)])>>, OutFile)
+Emit == (pc = "session") => CSVWrite("%1$s", <<ToJson([victim |-> victim, field |-> field, class |-> class, field2 |-> (IF field2 = NoPair THEN "" ELSE field2), class2 |-> (IF class2 = NoPair THEN "" ELSE class2), progress |-> (display = "progress")])>>, OutFile)
 GenNext == FALSE /\ UNCHANGED vars
 GenSpec == Init /\ [][GenNext]_vars
 =============================================================================
